@@ -166,9 +166,14 @@ def rule_idsrc(filter_names=None):
                     if C is not None and C[0] == "at" and C[1].startswith("L"):
                         from .core import mk_len
                         L = mk_len(C, an)
+                        sized = count_tainted(L, an)
+                        for (var, ver), v in an.term_of.items():
+                            if var == C[1] and v[0] == "call" and v[1] in ("alloc::vec::from_elem", "alloc::vec::Vec::with_capacity") \
+                                    and count_tainted(v[3][-1], an):
+                                sized = True
                         org = Origins(crate, an, fx).origin(ev["args"][1])
                         idx_is_vertex = org is not None or _is_key_item(ev["args"][1], an, fx)
-                        if count_tainted(L, an) and idx_is_vertex:
+                        if sized and idx_is_vertex:
                             clean = False
                             o.check(False, pretty, "positional-by-vertex",
                                     "storage of length order() is indexed by a vertex id", ev["span"])
